@@ -75,22 +75,35 @@ class DeflateDecompressor(SimpleGzipDecompressor):
     '''zlib decompressor with raw deflate detection.
 
     This class doesn't do any special. It only tries regular zlib and then
-    tries raw deflate on the first decompress.
+    tries raw deflate if zlib rejects the data before having produced any
+    output (the data may arrive in pieces shorter than the zlib header).
     '''
     def __init__(self):
         super().__init__()
         self.decompressobj = None
+        # Input kept until the zlib decompressor has produced output.
+        self._pending = b''
 
     def decompress(self, value):
         if not self.decompressobj:
-            try:
-                self.decompressobj = zlib.decompressobj()
-                return self.decompressobj.decompress(value)
-            except zlib.error:
-                self.decompressobj = zlib.decompressobj(-zlib.MAX_WBITS)
-                return self.decompressobj.decompress(value)
+            self.decompressobj = zlib.decompressobj()
 
-        return self.decompressobj.decompress(value)
+        if self._pending is None:
+            return self.decompressobj.decompress(value)
+
+        self._pending += value
+
+        try:
+            data = self.decompressobj.decompress(value)
+        except zlib.error:
+            pending, self._pending = self._pending, None
+            self.decompressobj = zlib.decompressobj(-zlib.MAX_WBITS)
+            return self.decompressobj.decompress(pending)
+
+        if data or self.decompressobj.eof:
+            self._pending = None
+
+        return data
 
     def flush(self):
         if self.decompressobj:
